@@ -353,6 +353,9 @@ func injKeys(run *core.Run) {
 				}
 			}
 			run.Distinct("keys/" + c.name + "/" + cls)
+			if i == 3 && shard == 0 && (c.name == "KeyForCommittee" || c.name == "JoinLenPrefix/3") {
+				run.Sample(map[string]any{"monitor": "key-injectivity", "constructor": c.name, "tuple": id, "key": core.Hex(key)})
+			}
 			// the key must decode back to its own components (no other tuple can then encode to it)
 			for _, p := range c.prefixes {
 				own := p.build(t)
